@@ -238,3 +238,10 @@ impl DifficultyValues {
             .collect()
     }
 }
+
+#[cfg(rosu_pp_verif)]
+impl OsuDifficultySetup {
+    pub(crate) fn verif_parts(self) -> (ScalingFactor, f64, OsuDifficultyAttributes) {
+        (self.scaling_factor, self.time_preempt, self.attrs)
+    }
+}
